@@ -328,6 +328,10 @@ def run(ctx):
     for d, shipped_cls in defs:
         try:
             P = d.build_plain(False)
+            if shipped_cls is None and d.hooks:
+                # a sibling of the same shape (names, formats) without hooks is compiled first in this process: what one
+                # definition compiles to must not depend on what else has been compiled
+                Defn(d.formats, d.names, {}, {}, d.label + "/sibling").build_plain(True)
             C = d.build_plain(True)
         except Exception as e:   # noqa
             ctx.violation("vp_compile-fails", "%s: %s" % (type(e).__name__, e), {"kind": "defn", "formats": [str(f) for f in d.formats]})
@@ -382,6 +386,40 @@ def run(ctx):
                         ctx.violation("%s/keyword-construction" % label, "keyword construction differs", case)
                 except Exception as e:   # noqa
                     ctx.violation("%s/raises" % label, "%s form raises %s: %s" % (label, type(e).__name__, str(e)[:100]), case)
+    # ---- siblings: the hook-less definition of the same shape compiled AFTER a hooked one still behaves like its plain form
+    for d, shipped_cls in defs:
+        if shipped_cls is not None or not d.hooks:
+            continue
+        d0 = Defn(d.formats, d.names, {}, {}, d.label + "/sibling")
+        try:
+            d.build_plain(True)
+            P0, C0 = d0.build_plain(False), d0.build_plain(True)
+        except Exception as e:   # noqa
+            ctx.violation("vp_compile-fails", "%s: %s" % (type(e).__name__, e), {"kind": "defn", "formats": [str(f) for f in d.formats]})
+            continue
+        fmts = wire.class_fmts(P0, reg)
+        for _ in range(2):
+            args = []
+            for f in fmts:
+                v = wire.gen_value(r, f, keys, 1, gen_class)
+                args.extend(v) if f[0] == "bits" else args.append(v)
+            case = {"kind": "sibling", "formats": [str(f) for f in d.formats], "names": d.names, "args": repr(args)[:600],
+                    "hooks_of_the_definition_compiled_before": sorted(d.hooks)}
+            ctx.count(("sib", d.label, repr(args)[:300]), nontrivial=True)
+            try:
+                bp = ser.pack_serializable(P0(*args))
+            except Exception:   # noqa
+                continue
+            try:
+                if ser.pack_serializable(C0(*args)) != bp:
+                    ctx.violation("compiled/bytes-differ", "compiled form of a hook-less definition encodes differently after a hooked "
+                                  "definition of the same shape was compiled", case)
+                elif c02.fields(ser.unpack_serializable(C0, bp)[0]) != c02.fields(ser.unpack_serializable(P0, bp)[0]):
+                    ctx.violation("compiled/decoded-fields-differ", "compiled form of a hook-less definition decodes differently after a "
+                                  "hooked definition of the same shape was compiled", case)
+            except Exception as e:   # noqa
+                ctx.violation("compiled/raises", "compiled form of a hook-less definition raises %s: %s after a hooked definition of "
+                              "the same shape was compiled" % (type(e).__name__, str(e)[:100]), case)
     # ---- defaults: omitted arguments take the declared default of *their own* field in every form
     ndefcase = 0
     for d, shipped_cls in defs:
